@@ -53,6 +53,24 @@ def gen(rng, tier):
             shape = [rng.randint(1, 9) for _ in range(rank)]
             form = rng.choice(["nd", "list", "tuple", "dict", "nd:int32", "nd:uint8"])
             cases.append({"kind": "io", "cls": cls, "shape": shape, "form": form, "rt": rt})
+    # one file holding several nodes whose constant-filled parameters have the SAME dtype and bytes but different shapes
+    for _ in range(16 if tier == "quick" else 200):
+        cls = rng.choice(list(ELEMENTWISE))
+        shape = rng.choice([[16, 8], [128], [2, 64], [4, 4, 8], [8, 16, 1], [256], [32, 8]])
+        cases.append({"kind": "elementwise", "cls": cls, "shape": shape, "dt": rng.choice(["float32", "float64", "int64"]),
+                      "rt": "file" if rng.random() < 0.8 else "dict", "w_in": "default" if cls == "CubaLIF" else None, "twins": True})
+    # constructors called with type arguments already filled in (copy-with-one-field-changed idioms such as
+    # dataclasses.replace pass the OLD node's types along): the declared types must still follow the parameters
+    for _ in range(30 if tier == "quick" else 400):
+        if rng.random() < 0.3:
+            cls = "Affine"         # (Linear, Scale do not take type arguments)
+            shape = [rng.randint(1, 5) for _ in range(rng.choice([2, 3]))]
+            cases.append({"kind": "matvec", "cls": cls, "shape": shape, "dt": "float32", "rt": rng.choice(["none", "dict", "file"]), "stale": True})
+        else:
+            cls = rng.choice([k for k in ELEMENTWISE if k != "Scale"])
+            shape = [rng.randint(1, 5) for _ in range(rng.choice([0, 1, 2, 3]))]
+            cases.append({"kind": "elementwise", "cls": cls, "shape": shape, "dt": "float32", "rt": rng.choice(["none", "dict", "file"]),
+                          "w_in": "default" if cls == "CubaLIF" else None, "stale": True})
     # CubaLIF with every admissible form of w_in (lower rank, length-1 axes, scalar, full)
     for _ in range(24 if tier == "quick" else 300):
         rank = rng.choice([1, 2, 2, 3])
@@ -68,6 +86,14 @@ def gen(rng, tier):
 
 
 def recipe(c):
+    r = recipe0(c)
+    if c.get("stale"):
+        r["args"]["input_type"] = {"input": np.array([9, 9])}
+        r["args"]["output_type"] = {"output": np.array([7])}
+    return r
+
+
+def recipe0(c):
     if c["kind"] == "matvec":
         w = np.zeros(c["shape"], dtype=c["dt"])
         args = {"weight": w}
@@ -130,9 +156,9 @@ def run(c):
     import nir
     r = recipe(c)
     res = try_build(r)
-    sig = (c["cls"], tuple(c["shape"]), c.get("form"), c.get("dt"), c["rt"], c.get("w_in"), c.get("bias"))
+    sig = (c["cls"], tuple(c["shape"]), c.get("form"), c.get("dt"), c["rt"], c.get("w_in"), c.get("bias"), c.get("twins"), c.get("stale"))
     nontriv = len(c["shape"]) >= 2 or c["rt"] != "none"
-    coq = cbuild(r, res) if c["rt"] == "none" else None
+    coq = cbuild(r, res) if c["rt"] == "none" and not c.get("stale") else None
     if res[0] != "ok":
         return Outcome(coq, f"{c['cls']} with valid parameters {c} raised {res[1]}", nontriv, sig)
     node = res[1]
@@ -141,7 +167,13 @@ def run(c):
     try:
         if c["rt"] != "none":
             with quiet():
-                g = nir.NIRGraph(nodes={"n": node}, edges=[])
+                nodes = {"n": node}
+                if c.get("twins"):
+                    # companions with byte-identical parameters of another shape, one stored before and one after "n"
+                    flat = int(np.prod(c["shape"]))
+                    nodes = {"a0": nir.Scale(scale=np.ones(flat, dtype=c["dt"])), "n": node,
+                             "z9": nir.Threshold(threshold=np.ones(list(reversed(c["shape"])) + [1], dtype=c["dt"]))}
+                g = nir.NIRGraph(nodes=nodes, edges=[])
                 if c["rt"] == "dict":
                     g2 = nir.NIRGraph.from_dict(g.to_dict())
                 else:
@@ -149,9 +181,16 @@ def run(c):
                     nir.write(bio, g)
                     g2 = nir.read(bio)
             node = g2.nodes["n"]
+            if c.get("twins"):
+                for nm, want in (("a0", [int(np.prod(c["shape"]))]), ("z9", list(reversed(c["shape"])) + [1])):
+                    f2 = check_type_dict(g2.nodes[nm].input_type, "input", want) or check_type_dict(g2.nodes[nm].output_type, "output", want)
+                    if f2:
+                        return Outcome(coq, f"{c['cls']}({c['shape']}, dtype={c['dt']}) stored next to nodes with byte-identical parameters "
+                                            f"of another shape, after={c['rt']}: companion {nm}: {f2}", nontriv, sig)
     except BaseException as e:  # noqa: BLE001
         return Outcome(coq, f"round trip ({c['rt']}) of {c['cls']} {c['shape']} raised {type(e).__name__}: {e}", nontriv, sig)
     fail = check_type_dict(node.input_type, "input", xin) or check_type_dict(node.output_type, "output", yout)
     if fail:
-        fail = f"{c['cls']}({c['shape']}, form={c.get('form')}, dtype={c.get('dt')}, after={c['rt']}): {fail}"
+        fail = (f"{c['cls']}({c['shape']}, form={c.get('form')}, dtype={c.get('dt')}, after={c['rt']}"
+                f"{', constructor given stale type arguments' if c.get('stale') else ''}): {fail}")
     return Outcome(coq, fail, nontriv, sig)
